@@ -7,7 +7,7 @@ Import ListNotations.
 
 Definition InflightCompletes (tr : list label) : Prop :=
   forall a b c cn, tr = a ++ Conn cn ReqModStart :: b ++ Conn cn SockClose :: c ->
-    In (Conn cn WriteDone) b.
+    In (Conn cn WriteDone) b \/ In (Conn cn WriteFail) b.
 
 Definition MarkedClose (tr : list label) : Prop :=
   forall a b c d cn,
@@ -39,7 +39,8 @@ Definition CloseReturns (tr : list label) : Prop :=
   forall a b, tr = a ++ CloseCall :: b -> In CloseReturn b.
 
 Definition AllAnswered (tr : list label) : Prop :=
-  forall a b cn, tr = a ++ Conn cn ReqModStart :: b -> In (Conn cn WriteDone) b.
+  forall a b cn, tr = a ++ Conn cn ReqModStart :: b ->
+    In (Conn cn WriteDone) b \/ In (Conn cn WriteFail) b.
 
 Definition ClientViews (tr : list label) (views : list cview) : Prop :=
   views = map (expected_view tr) (seq 0 (length (filter is_accept tr))).
@@ -52,10 +53,12 @@ Proof.
   unfold ok_inflight, InflightCompletes. rewrite all_between_iff. unfold AllBetween. split.
   - intros H a b c cn E. destruct (H _ _ _ _ _ E) as (z & Hz & Hr).
     + exact (is_conn_refl cn SockClose).
-    + simpl in Hr. apply is_conn_eq in Hr. subst. exact Hz.
+    + simpl in Hr. apply orb_true_iff in Hr as [Hr|Hr]; apply is_conn_eq in Hr; subst; auto.
   - intros H a x b y c E Ht. destruct x as [|cn k| | | | |]; try discriminate.
     destruct k; try discriminate. simpl in Ht. apply is_conn_eq in Ht. subst.
-    exists (Conn cn WriteDone). split; [eapply H; eauto|apply is_conn_refl].
+    destruct (H _ _ _ _ eq_refl) as [Hi|Hi].
+    + exists (Conn cn WriteDone). split; auto. unfold s1_resp. rewrite is_conn_refl. reflexivity.
+    + exists (Conn cn WriteFail). split; auto. unfold s1_resp. rewrite is_conn_refl. apply orb_true_r.
 Qed.
 
 Lemma ok_marked_iff tr : ok_marked tr = true <-> MarkedClose tr.
@@ -75,7 +78,7 @@ Proof.
     rewrite Nat.eqb_refl in H. discriminate.
   - intros H a x b y c E. apply false_true_False. intros Hb.
     destruct x as [|cn k| | | | |]; try discriminate.
-    destruct k as [| | | | | | | |mm| | |]; try discriminate. destruct mm; try discriminate.
+    destruct k as [| | | | | | | |mm| | | |?|?| |]; try discriminate. destruct mm; try discriminate.
     simpl in Hb. apply is_conn_eq in Hb. subst. eapply H; eauto.
 Qed.
 
@@ -157,10 +160,12 @@ Lemma ok_all_answered_iff tr : ok_all_answered tr = true <-> AllAnswered tr.
 Proof.
   unfold ok_all_answered, AllAnswered. rewrite all_followed_iff. unfold AllFollowed. split.
   - intros H a b cn E. destruct (H _ _ _ E eq_refl) as (z & Hz & Hr).
-    simpl in Hr. apply is_conn_eq in Hr. subst. exact Hz.
+    simpl in Hr. apply orb_true_iff in Hr as [Hr|Hr]; apply is_conn_eq in Hr; subst; auto.
   - intros H a x b E Hp. destruct x as [cn|cn k| | | | |]; try discriminate.
     destruct k; try discriminate. subst.
-    exists (Conn cn WriteDone). split; [eapply H; eauto|apply is_conn_refl].
+    destruct (H _ _ _ eq_refl) as [Hi|Hi].
+    + exists (Conn cn WriteDone). split; auto. unfold l3_q. rewrite is_conn_refl. reflexivity.
+    + exists (Conn cn WriteFail). split; auto. unfold l3_q. rewrite is_conn_refl. apply orb_true_r.
 Qed.
 
 Lemma list_eqb_eq {A} (e : A -> A -> bool) :
@@ -174,8 +179,8 @@ Qed.
 
 Lemma resp_eqb_eq x y : resp_eqb x y = true <-> x = y.
 Proof.
-  destruct x as [a b], y as [c d]. unfold resp_eqb. simpl.
-  rewrite andb_true_iff, !Bool.eqb_true_iff. split; [intros [-> ->]; reflexivity|].
+  destruct x as [[a b] e], y as [[c d] f]. unfold resp_eqb. simpl.
+  rewrite !andb_true_iff, !Bool.eqb_true_iff. split; [intros [[-> ->] ->]; reflexivity|].
   intros H; inversion H; auto.
 Qed.
 
@@ -196,13 +201,55 @@ Proof.
     split; auto. rewrite Hl. exact H.
 Qed.
 
+(* status and write-failure clauses *)
+Definition StatusMatches (tr : list label) : Prop :=
+  forall c, c < length (filter is_accept tr) -> status_scan c false tr = true.
+
+Definition FailOnlyIfGone (tr : list label) : Prop :=
+  forall a b cn, tr = a ++ Conn cn WriteFail :: b -> In (Conn cn CliGone) a.
+
+Lemma ok_status_iff tr : ok_status tr = true <-> StatusMatches tr.
+Proof.
+  unfold ok_status, StatusMatches. rewrite forallb_forall. split.
+  - intros H c Hc. apply H. apply in_seq. lia.
+  - intros H c Hc. apply in_seq in Hc. apply H. lia.
+Qed.
+
+Lemma all_preceded_iff {A} (p : A -> bool) (q : A -> A -> bool) tr : forall seen,
+  all_preceded p q seen tr = true <->
+  (forall a x b, tr = a ++ x :: b -> p x = true ->
+     exists z, (In z a \/ In z seen) /\ q x z = true).
+Proof.
+  induction tr as [|x0 r IH]; intros seen; simpl.
+  - split; auto. intros _ a x b H. destruct a; discriminate.
+  - rewrite andb_true_iff, IH, orb_true_iff, negb_true_iff, existsb_exists. split.
+    + intros [Hh Ht] a x b E Hp. destruct a as [|a0 a]; simpl in E; inversion E; subst.
+      * destruct Hh as [Hh|(z & Hz & Hq)]; [congruence|]. exists z. auto.
+      * destruct (Ht a x b eq_refl Hp) as (z & [Hz|[Hz|Hz]] & Hq); exists z; simpl; auto.
+    + intros H. split.
+      * destruct (p x0) eqn:Ep; [right|left; reflexivity].
+        destruct (H [] x0 r eq_refl Ep) as (z & [[]|Hz] & Hq). eauto.
+      * intros a x b -> Hp. destruct (H (x0 :: a) x b eq_refl Hp) as (z & [[Hz|Hz]|Hz] & Hq);
+          exists z; simpl; auto.
+Qed.
+
+Lemma ok_fail_only_if_gone_iff tr : ok_fail_only_if_gone tr = true <-> FailOnlyIfGone tr.
+Proof.
+  unfold ok_fail_only_if_gone, FailOnlyIfGone. rewrite all_preceded_iff. split.
+  - intros H a b cn E. destruct (H _ _ _ E eq_refl) as (z & [Hz|[]] & Hq).
+    simpl in Hq. apply is_conn_eq in Hq. subst. exact Hz.
+  - intros H a x b E Hp. destruct x as [|cn k| | | | |]; try discriminate.
+    destruct k; try discriminate. subst.
+    exists (Conn cn CliGone). split; [left; eapply H; eauto|apply is_conn_refl].
+Qed.
+
 (* the whole oracle *)
 Definition C07_spec (tr : list label) (views : list cview) : Prop :=
   InflightCompletes tr /\ MarkedClose tr /\ MarkedThenClosed tr /\
   NoReqmodAfterReturn tr /\ LateAcceptNotServed tr /\ ReturnAfterServedClosed tr /\
   ReturnAfterAcceptedClosed tr /\
   AllClosed tr /\ CloseReturns tr /\ AllAnswered tr /\
-  ClientViews tr views.
+  ClientViews tr views /\ StatusMatches tr /\ FailOnlyIfGone tr.
 
 Lemma c07_ok_iff tr views : c07_ok tr views = true <-> C07_spec tr views.
 Proof.
@@ -210,7 +257,8 @@ Proof.
   rewrite !andb_true_iff, ok_inflight_iff, ok_marked_iff, ok_marked_last_iff,
     ok_no_reqmod_after_return_iff, ok_late_not_served_iff, ok_return_after_served_closed_iff,
     ok_return_after_accepted_closed_iff,
-    ok_all_closed_iff, ok_close_returns_iff, ok_all_answered_iff, ok_client_views_iff.
+    ok_all_closed_iff, ok_close_returns_iff, ok_all_answered_iff, ok_client_views_iff,
+    ok_status_iff, ok_fail_only_if_gone_iff.
   tauto.
 Qed.
 
@@ -230,17 +278,31 @@ Qed.
 Definition example_trace : list label :=
   [Accept 0; Conn 0 Register; Conn 0 Enter; Conn 0 ReqModStart; Conn 0 RTStart;
    Accept 1; Conn 1 Register; Conn 1 Enter;
-   Conn 0 ResModStart; CloseCall; CloseSignal; ClosingSeen; CloseLock;
+   Conn 0 (RTEnd true); Conn 0 ResModStart; CloseCall; CloseSignal; ClosingSeen; CloseLock;
    Conn 1 SockClose; Conn 1 Done;
-   Conn 0 ResModEnd; Conn 0 Decide; Conn 0 (WriteHead true); Conn 0 WriteDone;
-   Conn 0 SockClose; Conn 0 Done; CloseReturn].
+   Conn 0 ResModEnd; Conn 0 Decide; Conn 0 (RespStatus false); Conn 0 (WriteHead true);
+   Conn 0 WriteDone; Conn 0 SockClose; Conn 0 Done; CloseReturn].
+
+(* shutdown while the exchange is in the round trip, which then fails: the
+   complete response is the synthesized 502, marked *)
+Definition example_rtfail : list label :=
+  [Accept 0; Conn 0 Register; Conn 0 Enter; Conn 0 ReqModStart; Conn 0 RTStart;
+   CloseCall; CloseSignal; ClosingSeen; CloseLock; Conn 0 (RTEnd false); Conn 0 ResModStart;
+   Conn 0 ResModEnd; Conn 0 Decide; Conn 0 (RespStatus true); Conn 0 (WriteHead true);
+   Conn 0 WriteDone; Conn 0 SockClose; Conn 0 Done; CloseReturn].
+
+Lemma example_rtfail_ok :
+  (exists s, run init example_rtfail = Some s) /\
+  c07_ok (filter is_obs example_rtfail) [([(true, true, true)], true)] = true /\
+  accepts (filter is_obs example_rtfail) = true.
+Proof. split; [eexists; vm_compute; reflexivity|split; vm_compute; reflexivity]. Qed.
 
 Lemma example_runs : exists s, run init example_trace = Some s /\ cs s = Returned
   /\ Forall (fun cn => ph cn = Finished) (conns s).
 Proof. eexists. split; [vm_compute; reflexivity|]. split; [reflexivity|]. repeat constructor. Qed.
 
 Lemma example_ok :
-  c07_ok (filter is_obs example_trace) [([(true, true)], true); ([], true)] = true
+  c07_ok (filter is_obs example_trace) [([(true, true, false)], true); ([], true)] = true
   /\ accepts (filter is_obs example_trace) = true.
 Proof. split; vm_compute; reflexivity. Qed.
 
